@@ -280,7 +280,7 @@ pub open spec fn mkdir_m_done(a: PathV, mode: u32, j: int) -> bool {
 impl Stdfs {
 //@ item mkdir_m file=src/sys/fs/stdfs/mod.rs block="impl Stdfs" fn=mkdir_m props=C01,C11,C05,C12
 //@ rw R3 1 for
-//@ rw R8 1 ⟦fs::create_dir(&path)?;⟧ => ⟦os_create_dir(&path)?;⟧
+//@ rw R8 * ⟦fs::create_dir(&path)?;⟧ => ⟦os_create_dir(&path)?;⟧
 //@ ins after ⟦let mut path = PathBuf::new();⟧
         let ghost a = abs@;
         let ghost mut k: int = 0;
@@ -402,10 +402,10 @@ impl Stdfs {
 //@ sig fn _copy(cp: sys::CopyOpts) -> RvResult<()>
 //@ rw R1 * re⟦\b(cp\.src|cp\.dst|src_root|dst_root) == (cp\.src|cp\.dst|src_root|dst_root)\b⟧ => ⟦\1.eq_abs(&\2)⟧
 //@ rw R1 + re⟦dst_root\.mash\(⟧ => ⟦dst_root.mash_rel(⟧
-//@ rw R8 1 ⟦Stdfs::symlink(dst_path, src.alt())?;⟧ => ⟦Stdfs::symlink_req(dst_path, src.alt())?;⟧
+//@ rw R8 * ⟦Stdfs::symlink(dst_path, src.alt())?;⟧ => ⟦Stdfs::symlink_req(dst_path, src.alt())?;⟧
 //@ rw R8 + re⟦Stdfs::mkdir_m\(⟧ => ⟦Stdfs::mkdir_m_req(⟧
-//@ rw R8 1 ⟦StdfsEntry::from(src.path().dir()?)?.mode()⟧ => ⟦Stdfs::entry_mode(src.path().dir()?)?⟧
-//@ rw R8 1 ⟦fs::copy(src.path(), &dst_path)?;⟧ => ⟦os_copy(src.path(), &dst_path)?;⟧
+//@ rw R8 * ⟦StdfsEntry::from(src.path().dir()?)?.mode()⟧ => ⟦Stdfs::entry_mode(src.path().dir()?)?⟧
+//@ rw R8 * ⟦fs::copy(src.path(), &dst_path)?;⟧ => ⟦os_copy(src.path(), &dst_path)?;⟧
 //@ rw R3 1 for
 //@ ins after ⟦let copy_into = Stdfs::is_dir(&dst_root);⟧
         let ghost b = dst_root@;
@@ -438,9 +438,9 @@ impl Stdfs {
 
 //@ item _chown file=src/sys/fs/stdfs/mod.rs block="impl Stdfs" fn=_chown props=C11,C12
 //@ sig fn _chown(opts: ChownOpts) -> RvResult<()>
-//@ rw R8 1 ⟦let uid = opts.uid.map(nix::unistd::Uid::from_raw);⟧ => ⟦let uid = opts.uid;⟧
-//@ rw R8 1 ⟦let gid = opts.gid.map(nix::unistd::Gid::from_raw);⟧ => ⟦let gid = opts.gid;⟧
-//@ rw R8 1 ⟦nix::unistd::chown(src.path(), uid, gid)?;⟧ => ⟦os_chown(src.path(), uid, gid)?;⟧
+//@ rw R8 * ⟦let uid = opts.uid.map(nix::unistd::Uid::from_raw);⟧ => ⟦let uid = opts.uid;⟧
+//@ rw R8 * ⟦let gid = opts.gid.map(nix::unistd::Gid::from_raw);⟧ => ⟦let gid = opts.gid;⟧
+//@ rw R8 * ⟦nix::unistd::chown(src.path(), uid, gid)?;⟧ => ⟦os_chown(src.path(), uid, gid)?;⟧
 //@ rw R3 1 for
 //@ loop 1
             invariant true,
@@ -534,7 +534,7 @@ pub open spec fn q_exists(c: Comps) -> bool { std_abs(c) is Some && os_stat_ok(a
 pub open spec fn q_is_dir(c: Comps) -> bool { std_abs(c) is Some && os_stat_ok(abs_of(c), true) && !os_is_link(abs_of(c)) && os_is_dir(abs_of(c), true) }
 impl Stdfs {
 //@ item write_all file=src/sys/fs/stdfs/mod.rs block="impl Stdfs" fn=write_all props=C06,C01,C05,C12
-//@ rw R1 1 ⟦f.write_all(data.as_ref())?;⟧ => ⟦f.write_all(data)?;⟧
+//@ rw R1 * ⟦f.write_all(data.as_ref())?;⟧ => ⟦f.write_all(data)?;⟧
     pub fn write_all(path: &PathBuf, data: &[u8]) -> (r: RvResult<()>)
         ensures
             r is Ok ==> ({
